@@ -161,6 +161,10 @@ let parse_ast (toks : string array) : expr =
       let args = list cnt in EFuncVar (kk, ift, args)
     | "sum" -> let a = e () in ESum a
     | "attr" -> let et = n () in let w = n () in let a = e () in EAttrSkip (et, w, a)
+    | "post" -> let et = n () in let w = n () in let a = e () in EAttrPost (et, w, a)
+    | "chs" -> let cnt = int_of_string (next ()) in
+      let rec offs k = if k <= 0 then [] else (let o = n () in o :: offs (k - 1)) in
+      let os = offs cnt in let a = e () in EAttrChoose (os, a)
     | t -> failwith ("bad ast token " ^ t)
   and list cnt = if cnt <= 0 then [] else (let x = e () in x :: list (cnt - 1)) in
   e ()
@@ -200,6 +204,15 @@ let run_ast (args : string list) : string =
                         (if wf_xlsb env ex then "1" else "0") ]
   | _ -> "bad-args"
 
+(* sheetq HEXNAME -> model(quote_sheet_name)|spec(sheet_text) *)
+let run_sheetq (args : string list) : string =
+  match args with
+  | [h] ->
+    let s = if h = "." then [] else scalars_of_hex h in
+    hex_of_scalars (quote_sheet_name s) ^ "|" ^ hex_of_scalars (sheet_text s)
+  | _ -> "bad-args"
+
+let () = Registry.register "sheetq" run_sheetq
 let () = Registry.register "ptg" run_raw
 let () = Registry.register "ptg_ast" run_ast
 let init () = ()
